@@ -732,12 +732,143 @@ def dict_forms_stream(ctx, res):
             res.violate("C17:list-differs:eq-ne", "`==` and `!=` of a typed list against %s are both %s" % (what, eq), {"stream": "dict-forms", "other": what})
 
 
+def shallow_and_reset_stream(ctx, res):
+    """(a) copies are as deep as the built-in's: `copy()`, a full slice, `+ []`, `* 1`, `| {}` of a typed list / dict whose values are
+    themselves lists or dicts hold the SAME inner objects as the original (what is put into an inner list through the original shows
+    through the copy, exactly as with list.copy() / dict.copy()), while the outer containers are independent; the results are typed;
+    (b) the value a typed field holds after `reset_value` is a typed container like any other: it holds the declared default, refuses
+    what the item field refuses, and is the configuration's own (the declared default and other configurations do not see edits)"""
+    import cincoconfig as cc
+    # (a)
+    s = cc.Schema()
+    s.dl = cc.DictField(cc.StringField(), cc.ListField(cc.IntField()), default=dict)
+    s.dd = cc.DictField(cc.StringField(), cc.DictField(cc.StringField(), cc.ListField(cc.IntField())), default=dict)
+    s.ll = cc.ListField(cc.ListField(cc.IntField()), default=lambda: [])
+    s.ld = cc.ListField(cc.DictField(cc.StringField(), cc.IntField()), default=lambda: [])
+    for how in ("copy", "slice-or-or", "concat-empty", "times-one", "constructor"):
+        cfg = s()
+        cfg.dl = {"x": [1], "y": [2]}
+        cfg.dd = {"outer": {"inner": [1]}}
+        cfg.ll = [[1], [2]]
+        cfg.ld = [{"a": 1}, {"b": 2}]
+        ref = {"dl": {"x": [1], "y": [2]}, "dd": {"outer": {"inner": [1]}}, "ll": [[1], [2]], "ld": [{"a": 1}, {"b": 2}]}
+        case = {"stream": "shallow-copies", "how": how}
+        res.case(stable(case), kind="shallow-copies:" + how)
+        try:
+            if how == "copy":
+                got = {"dl": cfg.dl.copy(), "dd": cfg.dd.copy(), "ll": cfg.ll.copy(), "ld": cfg.ld.copy()}
+                want = {"dl": ref["dl"].copy(), "dd": ref["dd"].copy(), "ll": ref["ll"].copy(), "ld": ref["ld"].copy()}
+            elif how == "slice-or-or":
+                got = {"dl": cfg.dl | {}, "dd": cfg.dd | {}, "ll": cfg.ll[:], "ld": cfg.ld[:]}
+                want = {"dl": ref["dl"] | {}, "dd": ref["dd"] | {}, "ll": ref["ll"][:], "ld": ref["ld"][:]}
+            elif how == "concat-empty":
+                got = {"ll": cfg.ll + [], "ld": cfg.ld + []}
+                want = {"ll": ref["ll"] + [], "ld": ref["ld"] + []}
+            elif how == "times-one":
+                got = {"ll": cfg.ll * 1, "ld": cfg.ld * 1}
+                want = {"ll": ref["ll"] * 1, "ld": ref["ld"] * 1}
+            else:
+                got = {"dl": dict(cfg.dl), "ll": list(cfg.ll)}
+                want = {"dl": dict(ref["dl"]), "ll": list(ref["ll"])}
+            # edit inner containers through the ORIGINAL, and the outer containers of the original
+            cfg.dl["x"].append(2)
+            ref["dl"]["x"].append(2)
+            cfg.dd["outer"]["inner"].append(2)
+            ref["dd"]["outer"]["inner"].append(2)
+            cfg.dd["outer"]["more"] = [5]
+            ref["dd"]["outer"]["more"] = [5]
+            cfg.ll[0].append(9)
+            ref["ll"][0].append(9)
+            cfg.ld[1]["c"] = 3
+            ref["ld"][1]["c"] = 3
+            cfg.dl["z"] = [7]
+            ref["dl"]["z"] = [7]
+            cfg.ll.append([8])
+            ref["ll"].append([8])
+            del cfg.ld[0]
+            del ref["ld"][0]
+
+            def plain(v):
+                if isinstance(v, dict):
+                    return {k: plain(x) for k, x in v.items()}
+                if isinstance(v, list):
+                    return [plain(x) for x in v]
+                return v
+            if plain(got) != plain(want):
+                res.violate("C17:copy-depth", "a copy of a typed list / dict of containers does not show what the built-in's copy shows after the original's inner containers were edited "
+                            "(the built-in copies one level)", dict(case, typed=plain(got), builtin=plain(want)))
+                continue
+            if how in ("copy", "concat-empty"):           # the property names copies and concatenations; a slice or `|` gives the built-in's plain result
+                from cincoconfig.fields.list_field import ListProxy
+                from cincoconfig.fields.dict_field import DictProxy
+                untyped = [k for k, v in got.items() if not isinstance(v, (ListProxy, DictProxy))]
+                if untyped:
+                    res.violate("C17:copy-not-typed", "a copy / concatenation of a typed list or dict is a plain container", dict(case, plain=untyped))
+        except Exception as e:  # noqa
+            res.violate("C17:copy-depth", "copying typed containers of containers raised %s" % type(e).__name__, dict(case, error=str(e)[:120]))
+    # (b)
+    for declared in ("literal", "factory", "pairs"):
+        d = cc.Schema()
+        if declared == "literal":
+            d.ports = cc.ListField(cc.PortField(), default=[80, 443])
+            d.names = cc.DictField(cc.StringField(), cc.IntField(max=5), default={"alpha": 1})
+        elif declared == "factory":
+            d.ports = cc.ListField(cc.PortField(), default=lambda: [80, 443])
+            d.names = cc.DictField(cc.StringField(), cc.IntField(max=5), default=lambda: {"alpha": 1})
+        else:
+            d.ports = cc.ListField(cc.PortField(), default=list((80, 443)))       # (a default declared as a tuple is held as that tuple: not a typed list, not this stream's subject)
+            d.names = cc.DictField(cc.StringField(), cc.IntField(max=5), default=[("alpha", 1)])
+        d.sub.tags = cc.ListField(cc.StringField(max_len=3), default=lambda: ["a"])
+        for history in ("reset-fresh", "assign-then-reset", "edit-then-reset"):
+            cfg, other = d(), d()
+            try:
+                if history == "assign-then-reset":
+                    cfg.ports = [1]
+                    cfg.names = {"z": 2}
+                    cfg.sub.tags = ["q"]
+                elif history == "edit-then-reset":
+                    cfg.ports.append(8080)
+                    cfg.names["beta"] = 2
+                    cfg.sub.tags.append("b")
+                for key in ("ports", "names", "sub.tags"):
+                    cc.reset_value(cfg, key)
+            except Exception as e:  # noqa
+                res.violate("C17:after-reset", "resetting typed containers raised %s" % type(e).__name__, {"stream": "after-reset", "declared": declared, "history": history, "error": str(e)[:100]})
+                continue
+            case = {"stream": "after-reset", "declared": declared, "history": history}
+            res.case(stable(case), kind="after-reset:" + declared)
+            if list(cfg.ports) != [80, 443] or dict(cfg.names) != {"alpha": 1} or list(cfg.sub.tags) != ["a"]:
+                res.violate("C17:after-reset", "after reset_value a typed list / dict does not hold the declared default", dict(case, ports=list(cfg.ports), names=dict(cfg.names)))
+                continue
+            accepted = []
+            for label, do in (("ports.append('not a number')", lambda: cfg.ports.append("not a number")), ("ports.append(70000)", lambda: cfg.ports.append(70000)),
+                              ("names['k'] = 99", lambda: cfg.names.__setitem__("k", 99)), ("names.update(k='x')", lambda: cfg.names.update(k="x")),
+                              ("sub.tags.append('toolong')", lambda: cfg.sub.tags.append("toolong")), ("ports += ['x']", lambda: cfg.ports.__iadd__(["x"]))):
+                try:
+                    do()
+                    accepted.append(label)
+                except Exception:  # noqa
+                    pass
+            if accepted:
+                res.violate("C17:after-reset", "after reset_value a typed list / dict accepts what its item field refuses (the held value is not a validated container)",
+                            dict(case, accepted=accepted))
+                continue
+            cfg.ports.append(8081)
+            cfg.names["g"] = 3
+            cfg.sub.tags.append("z")
+            later = d()
+            if list(other.ports) != [80, 443] or list(later.ports) != [80, 443] or dict(later.names) != {"alpha": 1} or dict(other.names) != {"alpha": 1} or list(later.sub.tags) != ["a"]:
+                res.violate("C17:after-reset", "editing a typed list / dict obtained by reset_value shows in another configuration (it is the declared default object itself)",
+                            dict(case, later_ports=list(later.ports), later_names=dict(later.names)))
+
+
 def run(ctx, n_quick=400, n_thorough=20000):
     res = Result()
     guard(res, "C17", list_stream, ctx, res, ctx.n(n_quick, n_thorough))
     guard(res, "C17", dict_stream, ctx, res, ctx.n(n_quick, n_thorough))
     guard(res, "C17", dict_forms_stream, ctx, res)
     guard(res, "C17", string_iterable_stream, ctx, res)
+    guard(res, "C17", shallow_and_reset_stream, ctx, res)
     return res
 
 
